@@ -398,10 +398,60 @@ def literal_whitespace_changed(c):
     return sa != sb and [re.sub(r"\s+", "", x) for x in sa] == [re.sub(r"\s+", "", x) for x in sb]
 
 
+def _own_break(loop) -> bool:
+    """a break that belongs to `loop` itself (searched everywhere except nested loops' bodies and nested scopes)"""
+    stack = list(loop.body)
+    while stack:
+        n = stack.pop()
+        if isinstance(n, ast.Break):
+            return True
+        if isinstance(n, (ast.FunctionDef, ast.AsyncFunctionDef, ast.ClassDef, ast.Lambda)):
+            continue
+        if isinstance(n, (ast.For, ast.AsyncFor, ast.While)):
+            stack.extend(n.orelse)
+            continue
+        stack.extend(ast.iter_child_nodes(n))
+    return False
+
+
+def _ends_flow_syntactically(st) -> bool:
+    """what core.is_blocking accepts as the end of the flow inside a with body: raise / return / continue / break, a
+    constant-true while loop without a break of its own, a nested with whose body does"""
+    if isinstance(st, (ast.Raise, ast.Return, ast.Continue, ast.Break)):
+        return True
+    if isinstance(st, ast.While) and isinstance(st.test, ast.Constant) and bool(st.test.value) and not _own_break(st):
+        return True
+    if isinstance(st, ast.With):
+        return any(_ends_flow_syntactically(x) for x in st.body)
+    return False
+
+
 def with_body_exits(c):
-    """code after a `with` whose body always raises/returns was deleted (see F16-2)"""
-    for w in _walk(c["a"], ast.With, ast.AsyncWith):
-        if w.body and isinstance(w.body[-1], (ast.Raise, ast.Return, ast.Continue, ast.Break)):
+    """statements that come AFTER a `with` (same block or an enclosing one) were deleted, and the body of that with ends the flow as far as
+    core.is_blocking can see (raise / return / continue / break, or `while True:` without a break: the exception that
+    really ends it, e.g. StopIteration from next(it), may be swallowed by the context manager; see F16-2)"""
+    from collections import Counter
+    gone = Counter(ast.dump(n) for n in ast.walk(_p(c["a"])) if isinstance(n, ast.stmt))
+    gone.subtract(Counter(ast.dump(n) for n in ast.walk(_p(c["b"])) if isinstance(n, ast.stmt)))
+    ta = _p(c["a"])
+    lost = [n for n in ast.walk(ta) if isinstance(n, ast.stmt) and gone[ast.dump(n)] > 0]
+    for w in ast.walk(ta):
+        if isinstance(w, ast.With) and any(_ends_flow_syntactically(x) for x in w.body) and any(n.lineno > w.end_lineno for n in lost):
+            return True
+    return False
+
+
+def deleted_definition_has_effect(c):
+    """a def / class that is gone from the output had decorators, or was a class with bases / keywords (metaclass,
+    __init_subclass__) or with statements other than defs in its body: executing the definition was observable"""
+    kept = {(type(n).__name__, n.name) for n in _walk(c["b"], ast.FunctionDef, ast.AsyncFunctionDef, ast.ClassDef)}
+    for n in _walk(c["a"], ast.FunctionDef, ast.AsyncFunctionDef, ast.ClassDef):
+        if (type(n).__name__, n.name) in kept:
+            continue
+        if n.decorator_list:
+            return True
+        if isinstance(n, ast.ClassDef) and (n.bases or n.keywords or any(
+                isinstance(x, ast.Call) for st in n.body if not isinstance(st, (ast.FunctionDef, ast.AsyncFunctionDef)) for x in ast.walk(st))):
             return True
     return False
 
